@@ -61,7 +61,7 @@ def generate(seed, tier):
     if g.chance(0.15):
         nss.append("")  # the empty namespace (what xmlns="" in RDF/XML binds)
     nh = g.randint(1, 3)
-    cfg = {"store": g.choice(["memory", "memory", "simple"]), "handles": [g.choice(["none", "core", "rdflib", "core"]) for _ in range(nh)], "iris": iris, "nss": nss}
+    cfg = {"store": g.choice(["memory", "memory", "simple", "auditable-memory", "auditable-simple"]), "handles": [g.choice(["none", "core", "rdflib", "core"]) for _ in range(nh)], "iris": iris, "nss": nss}
     w = {"bind": g.choice([2, 4, 6]), "qname": g.choice([2, 4, 8]), "parse": g.choice([0, 1]), "serialize": g.choice([0, 1]), "expand": 1, "reset": g.choice([0, 0, 1]), "storebind": g.choice([0, 0, 1]), "peek": g.choice([0, 1, 2])}
     nsteps = g.randint(3, 30 if tier == "quick" else 60)
     ops = []
@@ -125,7 +125,13 @@ def execute(trace, ctx):
         """an IRI of a more specific kind (as rdflib's own Genid / RDFLibGenid are)"""
 
     cfg = trace["config"]
-    store = Memory() if cfg["store"] == "memory" else SimpleMemory()
+    store = Memory() if cfg["store"] in ("memory", "auditable-memory") else SimpleMemory()
+    if cfg["store"].startswith("auditable"):
+        # the bindings behind a wrapper that passes them through
+        from rdflib.plugins.stores.auditable import AuditableStore
+
+        store = AuditableStore(store)
+        ctx.probe("bindings-behind-auditable-wrapper")
     handles = {}
     last_bind_by = [None]
     cached = {}  # (h, iri) -> namespace used in an earlier answer of handle h
